@@ -8,7 +8,7 @@ imports log every argument, so a permuted argument, a shifted function index or 
 Table placement is additionally read directly (non-NULL bitmap) and every covered slot is called through a probe.
 """
 import os, shutil
-from vlib import env, e2e, gen, wasm, diff
+from vlib import env, e2e, gen, wasm, diff, progs
 from vlib.wasm import *
 
 LEVEL = 'exploration'
@@ -275,7 +275,7 @@ def main(chk):
         outs = {}
         if st == 'ok':
             for tag, cc, cflags in builds:
-                outs[tag] = e2e.build_and_run(w2c2, b, plan, script, os.path.join(d, tag), cc=cc, cflags=cflags)[:2]
+                outs[tag] = e2e.build_and_run(w2c2, b, plan, script, os.path.join(d, tag), cc=cc, cflags=cflags, opts=progs.opts_for(k))[:2]
         shutil.rmtree(d, ignore_errors=True)
         return k, b, script, st, ref, outs, slots, len(entries), m
 
